@@ -508,3 +508,53 @@ func SiblingView(c *Chain, salt int) []*SimBlock {
 	c.salt = save
 	return view
 }
+
+// ForkAboveServed forks at the first height that has never been served to any client (and is
+// above the finalized block): nothing the node can have processed is replaced. It returns the
+// fork height and the new blocks (nil if there is no such height below head+1).
+func (c *Chain) ForkAboveServed(blocks int, gen LogGen) (uint64, []*SimBlock) {
+	c.mu.Lock()
+	at := c.MaxServed.Load() + 1
+	if at <= c.finalized {
+		at = c.finalized + 1
+	}
+	if at > uint64(len(c.canon)) || at == 0 {
+		c.mu.Unlock()
+		return 0, nil
+	}
+	c.mu.Unlock()
+	// Fork re-checks under the lock; MaxServed can only have grown, in which case we give up
+	c.mu.Lock()
+	if c.MaxServed.Load()+1 > at {
+		c.mu.Unlock()
+		return 0, nil
+	}
+	c.mu.Unlock()
+	return at, c.forkIfUnserved(at, blocks, gen)
+}
+
+func (c *Chain) forkIfUnserved(at uint64, blocks int, gen LogGen) []*SimBlock {
+	c.mu.Lock()
+	defer c.mu.Unlock()
+	if c.MaxServed.Load() >= at || at <= c.finalized || at > uint64(len(c.canon)) {
+		return nil
+	}
+	old := uint64(len(c.canon) - 1)
+	c.canon = c.canon[:at]
+	c.salt++
+	if c.safe >= at {
+		c.safe = at - 1
+	}
+	out := []*SimBlock{}
+	for i := 0; i < blocks; i++ {
+		parent := c.canon[len(c.canon)-1]
+		var l []LogSpec
+		if gen != nil {
+			l = gen(parent.Num()+1, parent.hash, parent.Header.Time+12)
+		}
+		c.mineLockedNoEv(l)
+		out = append(out, c.canon[len(c.canon)-1])
+	}
+	c.ev("fork(above served) at=%d oldHead=%d newHead=%d", at, old, len(c.canon)-1)
+	return out
+}
